@@ -113,6 +113,21 @@ theorem C17_total (evs : List BodyEv) :
     have := h3 o ho
     cases o <;> simp [isTerminal] at this ⊢
 
+/-- **A clean end is always faithful** (any body, any events, any chunking — also outside
+the domain of `C17_lossless`: no trailers frame, several of them, messages after it): if the
+caller's stream ends cleanly, then the body's data bytes were a sequence of complete frames
+and the data frames the caller received are, concatenated, exactly the message frames among
+them — none dropped, duplicated, reordered or altered. -/
+theorem C17_clean_end_is_faithful (evs : List BodyEv)
+    (h : (Fixed.observe evs).getLast? = some Out.eos) :
+    ∃ items : List (UInt8 × Bytes),
+      (∀ i ∈ items, Spec.GrpcWeb.flagOk i.1 ∧ i.2.length < 4294967296) ∧
+      flat evs = Spec.GrpcWeb.encItems items ∧
+      WebServer.dataOf (Fixed.observe evs) =
+        Spec.GrpcWeb.encItems (items.filter (fun i => i.1 != 128)) := by
+  obtain ⟨its, hv, hd, hdata⟩ := run_clean evs {} h
+  exact ⟨its, hv, by simpa using hd, hdata⟩
+
 /-- A message-only body (no trailers frame) ends cleanly only if it is a sequence of complete
 frames: contrapositive of `C17_truncation_is_error`, the form used by the check's verdict. -/
 theorem C17_clean_end_implies_well_framed (evs : List BodyEv)
